@@ -13,7 +13,22 @@ func genHistory(rt *rapid.T, spec *ImageSpec, n int, allowBroken bool) {
 	if !allowBroken {
 		mode = "valid"
 	}
-	cmd := func(i int) string { return fmt.Sprintf("cmd-%d", i) }
+	// build commands as builders write them: synthetic, BuildKit style, and the legacy builder's
+	// "#(nop)" form - which it uses for metadata-only entries AND for ADD/COPY, which create a layer
+	style := rapid.SampledFrom([]string{"plain", "plain", "buildkit", "legacy", "mixed"}).Draw(rt, "hist.cmdstyle")
+	cmd := func(i int) string {
+		st := style
+		if st == "mixed" {
+			st = []string{"plain", "buildkit", "legacy"}[i%3]
+		}
+		switch st {
+		case "buildkit":
+			return fmt.Sprintf("COPY ./f%d /f%d # buildkit", i, i)
+		case "legacy":
+			return fmt.Sprintf("/bin/sh -c #(nop) ADD file:%04x in / ", i)
+		}
+		return fmt.Sprintf("cmd-%d", i)
+	}
 	switch mode {
 	case "missing":
 		return
